@@ -165,6 +165,8 @@ var registry = []propertySpec{
 				Bounds: "two trees with equal root tag: 0..2 children each (plain {A,B,C} / BIRT / DATE), optional grandchild; result mutated at every node afterwards"},
 			{Name: "VerifC09_SelfMerge", Quick: tierSpec{Cases: 6}, Thorough: tierSpec{Cases: 6}, Sched: -1,
 				Bounds: "a tree with 1..3 pairwise non-equal children (optional grandchild) merged with itself"},
+			{Name: "VerifC09_MergeFunctions", Quick: tierSpec{Cases: 18}, Thorough: tierSpec{Cases: 18}, Sched: -1,
+				Bounds: "EqualityMergeFunction called directly on two trees (root with 0..2 children, optional grandchild) and on their first children: nil iff not equal, arguments untouched, result fresh"},
 			{Name: "VerifC09_MergeSlices", Quick: tierSpec{Cases: 9}, Thorough: tierSpec{Cases: 9}, Sched: -1,
 				Bounds: "two lists of 0..2 nodes (duplicates allowed), each element with a unique marker child; merge function equality / always / never"},
 		},
